@@ -51,6 +51,8 @@ func C10(c *core.Ctx) {
 	emit(c, a.QualifiedResolution())
 	ruleDedup(c)
 	ruleDefsAsWritten(c)
+	// both pointer prefixes, in any capitalisation, name the definition written after them (A-REFNAMES, shared with C13)
+	ruleRefNames(c)
 	// "each definition yields one Go type": a declaration reached twice (a document reached through two spellings, the alias of a
 	// referenced branch) is kept once (A-DECLSET)
 	ruleDeclSet(c)
